@@ -1,7 +1,7 @@
 (* Property C07 -- readers are isolated from reloads: guards pin values, no torn reads.
    Statements only.  Lock granularity: RwLock gives mutual exclusion between one writer and any
    readers; values are multi-word and are copied word by word, so tearing is expressible. *)
-From Coq Require Import List Arith Bool.
+From Coq Require Import List String Arith Bool.
 From AM Require Import Rust.Ast Rust.Script Ref.RwCell Gen.Entry Proofs.RwProof Proofs.RwStep Proofs.RwPin
   Tie.Entry Tie.CallGraph.
 From AM Require Proofs.AnsInv Proofs.AnsC.
@@ -15,6 +15,17 @@ Theorem C07_code_follows_the_lock_discipline :
   map_wf AssetReadGuard_map = true /\
   try_map_wf AssetReadGuard_try_map = true.
 Proof. exact (conj write_accepted (conj read_takes_lock (conj map_keeps_lock try_map_keeps_lock))). Qed.
+
+(* 1b. ... and nothing else reaches a stored value: the cell is dereferenced only by `read`,
+       `write` and the accessor of never-rewritten entries (which refuses a reloadable entry first);
+       copied / cloned read through a guard *)
+Theorem C07_every_reader_takes_the_lock :
+  (callers_of "value.get/0" = ["EntryStorage::get"; "EntryStorage::read"; "UntypedEntry::write"] /\
+   callers_of "value.get_mut/0" = ["UntypedEntry::write"] /\
+   callers_of "value.into_inner/0" = ["CacheEntry::into_inner"]) /\
+  static_get_wf EntryStorage_get = true /\
+  via_read Handle_copied = true /\ via_read Handle_cloned = true.
+Proof. exact (conj value_cell_touched_only_by (conj static_get_refuses_reloadable copies_go_through_a_guard)). Qed.
 
 (* 2. No torn reads: for EVERY family of scripts the checker accepts, any number of threads and
       every schedule, each completed read returned all the words of one version. *)
